@@ -9,6 +9,23 @@ class CMakeSyntaxError(SyntaxError):
     pass
 
 
+class SyntaxErrorCollector(ErrorListener):
+    """
+    Remembers every syntax error reported by the lexer or the parser.
+    Both recover from errors by skipping input, so a file that produced
+    any error must not be documented from what was left of it.
+    """
+
+    def __init__(self):
+        super(SyntaxErrorCollector, self).__init__()
+
+        self.errors = []
+        """Messages of all syntax errors reported so far, prefixed with line and column."""
+
+    def syntaxError(self, recognizer, offendingSymbol, line, column, msg, e):
+        self.errors.append(f"line {line}:{column} {msg}")
+
+
 class ParserErrorListener(ErrorListener):
     """
     Listens for parser errors and raises exceptions when they occur.
